@@ -1104,16 +1104,8 @@ fn rand_alt(r: &mut Rng, subj: &str) -> Alt {
         return Alt::ExpErr;
     }
     if r.chance(1, 6) {
-        // a word with quoting of every kind; one the independent reading has an opinion on (no raw backslash
-        // directly before a quotation mark)
-        loop {
-            let w = rand_wunits(r, 0, false);
-            let mut skip = false;
-            word_marks(&w, false, &mut vec![], &mut skip);
-            if !skip {
-                return Alt::Word(w);
-            }
-        }
+        // a word with quoting of every kind
+        return Alt::Word(rand_wunits(r, 0, false));
     }
     match r.below(10) {
         0..=3 => Alt::Var(text(r)),
